@@ -21,6 +21,44 @@ use tracing::info;
 
 use crate::DEFAULT_BATCH_SIZE;
 
+/// Verification hooks (compiled only with `--cfg sierradb_verif`): simulate a process crash
+/// between the file operations of `persist_bucket_state`.
+#[cfg(sierradb_verif)]
+pub mod verif {
+    use std::sync::atomic::{AtomicU32, Ordering};
+
+    /// Abort `persist_bucket_state` right after its n-th file operation (0 = never).
+    pub static PERSIST_CRASH_AFTER: AtomicU32 = AtomicU32::new(0);
+    /// Number of file operations completed by the most recent `persist_bucket_state`.
+    pub static PERSIST_OPS_DONE: AtomicU32 = AtomicU32::new(0);
+
+    pub(super) fn persist_begin() {
+        PERSIST_OPS_DONE.store(0, Ordering::SeqCst);
+    }
+
+    /// Called after each file operation; `true` = stop here as a crash would.
+    pub(super) fn persist_op_done() -> bool {
+        let done = PERSIST_OPS_DONE.fetch_add(1, Ordering::SeqCst) + 1;
+        done == PERSIST_CRASH_AFTER.load(Ordering::SeqCst)
+    }
+}
+
+#[cfg(sierradb_verif)]
+macro_rules! verif_crash_point {
+    () => {
+        if verif::persist_op_done() {
+            return Err(ConfirmationError::Io(io::Error::other(
+                "verif: simulated crash",
+            )));
+        }
+    };
+}
+
+#[cfg(not(sierradb_verif))]
+macro_rules! verif_crash_point {
+    () => {};
+}
+
 /// Errors that can occur during confirmation state operations
 #[derive(Error, Debug)]
 pub enum ConfirmationError {
@@ -439,22 +477,30 @@ impl BucketConfirmationManager {
         let current_path = self.get_current_state_path(bucket_id);
         let previous_path = self.get_previous_state_path(bucket_id);
 
+        #[cfg(sierradb_verif)]
+        verif::persist_begin();
+
         {
             let mut file = File::create(&temp_path).await?;
+            verif_crash_point!();
             file.write_all(&state_bincode).await?;
             file.sync_all().await?;
         }
+        verif_crash_point!();
 
         // If current file exists, make it the previous backup
         if current_path.exists() {
             if previous_path.exists() {
                 fs::remove_file(&previous_path).await?;
+                verif_crash_point!();
             }
             fs::rename(&current_path, &previous_path).await?;
+            verif_crash_point!();
         }
 
         // Make temp file the current file
         fs::rename(&temp_path, &current_path).await?;
+        verif_crash_point!();
 
         info!("wrote bucket confirmations to disk");
 
